@@ -104,6 +104,8 @@ def main() -> int:
     if len(schedules) < 20:
         raise core.MachineryFailure("schedule generation produced %d schedules" % len(schedules))
     chosen = select(schedules, keep, rnd)
+    if ck.replay_case is not None:
+        chosen = [ck.replay_case["schedule"]]
     sp = ck.work / "schedules.json"
     core.write_json(sp, {"texts": {"t1": T1, "t2": T2}, "schedules": chosen})
     # R
@@ -133,6 +135,6 @@ def main() -> int:
         "a crash = the process performs no further operation; modelled in-process by refusing every later cache operation of the thread",
         "partial writes made visible by splitting pickle.dump into 2 flushed chunks (harness wrapper)",
     ]
-    if n_conc == 0:
+    if n_conc == 0 and ck.replay_case is None:
         raise core.MachineryFailure("vacuous: no interleaved schedule")
     return ck.finish()
